@@ -80,6 +80,12 @@ CHECKS = {
         text='22 payloads containing every operator character alone and embedded are delivered through $V (exported and shell-local), ${V}, $(cmd), backquotes and a file name matched by *, unquoted and double-quoted, at six argument positions; the real planner must keep the template structure (no pipe, background job, extra command, redirection) and pass the payload as argument text (one argument inside double quotes). The same deliveries are executed by the real binary at two positions: helper runs once, in the foreground, no file appears.',
         note='Payload list is the bound; unquoted results may be split at blanks.',
         ref='DESIGN.md §4 C13'),
+    'C14': dict(
+        engine='E1 exhaustive AST enumeration + E3 choice-prefix DFS over scripted condition answers, real binary',
+        technique='exhaustive enumeration of all abstract syntax trees up to a node bound, with a stateless choice-prefix DFS over every scripted condition answer (environment answers as choice points), executed by the real binary against a reference interpreter',
+        text='All ASTs over {command, if with up to 3 conditional arms and optional else, for over 0..2 words, while, break, continue} with up to 4 (thorough 5: about 21 k trees) statement nodes and depth <= 3 are rendered in both spellings with two layouts; every condition is a helper whose answers are scripted and each dynamic evaluation is a choice point (all answer strings of up to 4 (6) answers that the run consumes, false beyond the prefix). The marker / condition-evaluation trace of the real binary must equal the reference interpreter (first true branch only, re-test before every iteration, loop variable binding, break/continue on the innermost loop). Negatives: every small tree with one block keyword line deleted must give a diagnostic and a non-zero status.',
+        note='Tree size, answer-string length and word lists are the bound; conditions and commands are helpers.',
+        ref='DESIGN.md §4 C14'),
     'C16': dict(
         engine='E1 bounded-exhaustive input sweep (in-process, differential between entry paths) + real binary through four entry points',
         technique='bounded-exhaustive enumeration of all lines over a 14-symbol alphabet with a differential oracle between the -c path and the script path of the real code; entry-point replay of bounded line sets through the real binary',
